@@ -155,6 +155,11 @@ def check(run: Run) -> None:
                 x = x[1][1]
             if x not in (("attr", sp, "_q_ast"), ("rec",)):
                 ok_walk = False
+    if not ok_walk:
+        from ..terms import contains as _cont
+
+        if any(_cont(a, lambda q: q[0] == "comp" or (q[0] == "app" and q[1] == ("global", "builtins.next"))) for a in walked):
+            raise AnalysisError("_get_executor finds the node that carries the executor with a search over a generator (next(.. for .. in <walk>)): which node of the chain it stops at cannot be read from this shape")
     run.check(ok_walk, "C12.R4", ge, ge.node, "default executor is the attribute of a node on the args[0] chain of self._q_ast", f"_get_executor returns {show(rt)[:160]}: the executor is not the one attached to this stream's root", term=show(rt))
     # the walk stops at the first node carrying the attribute
     from ..lib import unit
